@@ -5,6 +5,12 @@ use mc_checks::*;
 use mc_ref::order::*;
 use tevec::prelude::{Cast, IsNone, Number};
 
+thread_local! {
+    /// set while a family with infinite values is checked: the interpolating quantile methods and the median
+    /// are skipped there (inf - inf is not a number); the order statistics proper are exact
+    static INF_MODE: std::cell::Cell<bool> = const { std::cell::Cell::new(false) };
+}
+
 fn q_grid(n_valid: usize) -> Vec<f64> {
     let mut g = vec![0.0, 0.1, 0.2, 0.25, 0.3, 1.0 / 3.0, 0.5, 2.0 / 3.0, 0.7, 0.75, 0.9, 1.0];
     if n_valid >= 2 {
@@ -44,8 +50,12 @@ where
         });
     };
     // quantiles
+    let inf_mode = INF_MODE.with(|c| c.get());
     for q in q_grid(nv) {
         for m in QMETHODS {
+            if inf_mode && !(m == QMethod::Lower || m == QMethod::Higher) {
+                continue;
+            }
             let got = run_quantile::<Vec<T>, T>(&v, q, m);
             ctx.eval(fam, match &got { Outcome::Ok(c) => c.hash64(), Outcome::Panic(p) => hash_bytes(p.as_bytes()) });
             let want = quantile(x, q, m);
@@ -58,12 +68,30 @@ where
                 // F09: the single valid element is not in first position
                 let f09 = nv == 1 && x[0].is_none() && matches!(&got, Outcome::Ok(c) if c.is_null());
                 viol(ctx, format!("vquantile({m:?})"), if f09 { Some("F09") } else { None }, json!({"q": q}), format!("{want:?}"), format!("{got:?}"));
+            } else if tname == "f64" && (q == 0.25 || q == 0.5 || q == 0.9) {
+                // scaling relation: the q-quantile of s*x is s times the q-quantile of x, exactly for a power of two
+                if let Outcome::Ok(c) = &got {
+                    for e in [-70i32, 70] {
+                        let sc = 2f64.powi(e);
+                        let xs: Vec<X> = x.iter().map(|v| v.map(|a| a * sc)).collect();
+                        let gs = run_quantile::<Vec<T>, T>(&enc_vec(&xs), q, m);
+                        ctx.evals += 1;
+                        let same = match (&gs, c.num()) {
+                            (Outcome::Ok(cs), Some(g)) => cs.num() == Some(g * sc),
+                            (Outcome::Ok(cs), None) => cs.is_null(),
+                            _ => false,
+                        };
+                        if !same {
+                            viol(ctx, format!("scaling:vquantile({m:?})"), None, json!({"q": q, "scale": format!("2^{e}")}), format!("2^{e} * {}", c.show()), format!("{gs:?}"));
+                        }
+                    }
+                }
             } else if ctx.samples.len() < 2 && len == 5 && nv == 4 && q == 0.3 {
                 ctx.sample(json!({"op": format!("vquantile({m:?})"), "series": json_word(x), "q": q, "model": format!("{want:?}"), "observed": format!("{got:?}")}));
             }
         }
     }
-    {
+    if !inf_mode {
         let got = run_median::<Vec<T>, T>(&v);
         ctx.eval(fam, outcome_hash(&match &got { Outcome::Ok(c) => Outcome::Ok(vec![c.clone()]), Outcome::Panic(p) => Outcome::Panic(p.clone()) }));
         let want = quantile(x, 0.5, QMethod::Linear);
@@ -243,7 +271,14 @@ fn main() {
             std::process::exit(2)
         });
         let mut ctx = Ctx::new();
-        if stored["case"]["family"] == "order-long" {
+        if stored["case"]["family"] == "order-inf" {
+            let inf_alpha: Vec<X> = vec![None, Some(f64::NEG_INFINITY), Some(0.0), Some(1.0), Some(f64::INFINITY)];
+            let w = syms_from_json(&stored["case"]["word"]);
+            let x = decode(&w, &inf_alpha);
+            INF_MODE.with(|c| c.set(true));
+            check_ty::<f64>("order-inf", "f64", &w, &x, &inf_alpha, &mut ctx);
+            check_ty::<Option<f64>>("order-inf", "Option<f64>", &w, &x, &inf_alpha, &mut ctx);
+        } else if stored["case"]["family"] == "order-long" {
             let x: Vec<X> = stored["case"]["series"].as_array().map(|a| a.iter().map(|v| v.as_f64()).collect()).unwrap_or_default();
             check_long("replay", &x, &fam.alpha, &mut ctx);
         } else {
@@ -252,6 +287,20 @@ fn main() {
         std::process::exit(finish_replay(&run, &stored, ctx));
     }
     let mut total = explore_tree(&fam, run.threads);
+    // infinities are ordinary extreme values for ranks, partitions and the non-interpolating quantiles
+    let inf_alpha: Vec<X> = vec![None, Some(f64::NEG_INFINITY), Some(0.0), Some(1.0), Some(f64::INFINITY)];
+    let inf_words = all_words_upto(inf_alpha.len(), run.pick(4, 5));
+    total.merge(par_items(&inf_words, run.threads, |w, ctx| {
+        let x = decode(w, &inf_alpha);
+        ctx.states += 1;
+        ctx.transitions += 1;
+        ctx.fam("order-inf").states += 1;
+        ctx.nontrivial("order-inf", hash_bytes(w));
+        INF_MODE.with(|c| c.set(true));
+        check_ty::<f64>("order-inf", "f64", w, &x, &inf_alpha, ctx);
+        check_ty::<Option<f64>>("order-inf", "Option<f64>", w, &x, &inf_alpha, ctx);
+        INF_MODE.with(|c| c.set(false));
+    }));
     let long = long_series(!run.quick());
     total.merge(par_items(&long, run.threads, |(label, x), ctx| check_long(label, x, &fam.alpha, ctx)));
     let meta = Meta {
